@@ -145,4 +145,102 @@ def jobs(tier):
     for sc in ('after_dense_bidir', 'before_dense_bidir', 'after_blocked', 'with_twin') + (('between',) if tier != 'quick' else ()):
         js.append(dict(name=f'H16:independence:{sc}', fn='h_independence', params=dict(scenario=sc), cost=500, witness_every=2,
                        budget_s=170 if tier == 'quick' else 700, opts=dict(query_timeout_ms=3000, branch_timeout_ms=1500, rf_budget=(400, 4000), witness_timeout_ms=5000)))
+    js.append(dict(name='H16b:request_parsing_independence', fn='h_parse_independence', cost=100, witness_every=50,
+                   budget_s=170 if tier == 'quick' else 600))
+    for sh in ('triangle',) + (('ring4', 'ring4+chord') if tier != 'quick' else ()):
+        for ends in (('A', 'C'), ('C', 'A')) + ((('B', 'C'),) if tier != 'quick' else ()):
+            for first, tag in enumerate(('none', 'loose', 'strict', 'loose_unsatisfiable', 'strict_unsatisfiable')):
+                js.append(dict(name=f'H16c:route_independence:{sh}:second={ends[0]}->{ends[1]}:first_include={tag}', fn='h_route_independence',
+                               params=dict(shape=sh, ends=ends, first=first), cost=100, witness_every=10,
+                               budget_s=170 if tier == 'quick' else 600, opts=dict(no_ties=True)))
     return js
+
+
+# ------------------------------------------------------------------------------------------ H16b request parsing
+
+def _json_request(ctx, tag, rid, src, dst):
+    """service-file entry whose optional keys are present / null / absent (value-forked) and whose powers are symbolic"""
+    te = {'trx_type': 'Voyager', 'trx_mode': 'mode 1', 'spacing': 50e9, 'path_bandwidth': 100e9}
+    nch = ctx.choice(f'{tag}: max-nb-of-channel', ['absent', None, 20, 40])
+    if nch != 'absent':
+        te['max-nb-of-channel'] = nch
+    pw = ctx.choice(f'{tag}: output-power', ['absent', None, 'value'])
+    if pw != 'absent':
+        te['output-power'] = ctx.real(f'{tag}_output_power_w', lo=1e-5, hi=1e-2) if pw == 'value' else None
+    tx = ctx.choice(f'{tag}: tx_power', ['absent', 'value'])
+    if tx == 'value':
+        te['tx_power'] = ctx.real(f'{tag}_tx_power_w', lo=1e-5, hi=1e-2)
+    if ctx.choice(f'{tag}: effective-freq-slot', ['absent', 'given']) == 'given':
+        te['effective-freq-slot'] = [{'N': 0, 'M': 4}]
+    req = {'request-id': rid, 'source': src, 'destination': dst, 'src-tp-id': src, 'dst-tp-id': dst, 'bidirectional': False,
+           'path-constraints': {'te-bandwidth': te}}
+    if ctx.choice(f'{tag}: explicit route', ['absent', 'given']) == 'given':
+        req['explicit-route-objects'] = {'route-object-include-exclude': [
+            {'explicit-route-usage': 'route-include-ero', 'index': 0, 'num-unnum-hop': {'node-id': f'roadm {tag}', 'link-tp-id': 'x',
+                                                                                        'hop-type': 'LOOSE'}}]}
+    return req
+
+
+def h_parse_independence(ctx):
+    """requests_from_json (first step of planning()): every attribute of the request object built for B is the same whether B
+    is parsed alone, after A or before A - for every presence/null/absence pattern of the optional keys of both"""
+    from gnpy.tools.json_io import requests_from_json
+    eqpt = equipment()
+    a = _json_request(ctx, 'A', 'A', 'trx A', 'trx B')
+    b = _json_request(ctx, 'B', 'B', 'trx B', 'trx A')
+    alone = requests_from_json({'path-request': [deepcopy(b)]}, eqpt)[0]
+    for order in ('after', 'before'):
+        lst = [deepcopy(a), deepcopy(b)] if order == 'after' else [deepcopy(b), deepcopy(a)]
+        got = {r.request_id: r for r in requests_from_json({'path-request': lst}, eqpt)}['B']
+        diff = []
+        for k, v in vars(alone).items():
+            w = getattr(got, k, '<missing>')
+            same = (v is w) or (bool(eq(v, w)) if (is_symbolic(v) or is_symbolic(w)) else v == w)
+            if not same:
+                diff.append((k, str(v), str(w)))
+        ctx.prove(f'request parsed {order} another one has the attributes it has alone', not diff and set(vars(got)) == set(vars(alone)),
+                  info=dict(order=order, differences=diff[:5]))
+
+
+# ------------------------------------------------------------------------------------------ H16c routing
+
+def h_route_independence(ctx, shape, ends, first):
+    """compute_path_dsjctn on a mesh with symbolic link lengths: the route and blocking reason of every request of a batch
+    of two (same or different end points, each with its own include list and hop types, satisfiable or not) are those it
+    gets alone"""
+    from harness.mesh import build_mesh, request
+    from gnpy.topology.request import compute_path_dsjctn, correct_json_route_list
+    m = build_mesh(ctx, shape, symmetric_lengths=True, with_oms=False)
+    inner = [s for s in m.sites if s not in ('A', 'C')]
+    far = inner[0]
+    incs = [((), ()), ((f'roadm {far}',), ('LOOSE',)), ((f'roadm {far}',), ('STRICT',)),
+            ((f'roadm C', f'roadm {far}'), ('LOOSE', 'LOOSE')), ((f'roadm C', f'roadm {far}'), ('STRICT', 'STRICT'))]
+    inc1 = incs[first]
+    inc2 = ctx.choice('include of request 2', incs)
+
+    def mk(which):
+        out = []
+        if 1 in which:
+            out.append(request('1', 'A', 'C', inc1[0], inc1[1]))
+        if 2 in which:
+            out.append(request('2', ends[0], ends[1], inc2[0], inc2[1]))
+        return out
+
+    def run(which, rev=False):
+        rqs = mk(which)
+        if rev:
+            rqs.reverse()
+        pths = compute_path_dsjctn(m.graph, m.eqpt, rqs, [])
+        return {r.request_id: ([e.uid for e in p], getattr(r, 'blocking_reason', None)) for r, p in zip(rqs, pths)}
+    alone = {**run((1,)), **run((2,))}
+    info = dict(shape=shape, second=ends, include1=inc1, include2=inc2)
+    for rev in (False, True):
+        try:
+            got = run((1, 2), rev)
+            err = None
+        except Exception as e:      # noqa
+            got, err = {}, f'{type(e).__name__}: {e}'
+        ctx.prove('the batch computes', err is None, info=dict(info, reversed_order=rev, error=err))
+        for rid in got:
+            ctx.prove(f'request {rid}: same route and same blocking reason as alone', got[rid] == alone[rid],
+                      info=dict(info, reversed_order=rev, batch=got[rid], alone=alone[rid]))
